@@ -21,6 +21,7 @@
    is one FIFO of beacons.
    Events (the schedule is the quantified variable; the harness gates Send and AddCallback so that it
    chooses the schedule on the real code):
+     SPutCtx d pre the same Put made with a context that is cancelled (see ss_step)
      SPut d        a beacon with content token d is appended to the store (round = next round) and
                    handed to every registered callback, FIFO per callback
      SStart c f    a client with connection id c calls SyncChain from round f: Last check, Cursor,
@@ -118,15 +119,29 @@ Definition on_close (s : stream) : stream :=
 
 Inductive sev :=
 | SPut (d : Z)
+| SPutCtx (d : Z) (pre : bool)   (* a Put whose context is cancelled: before the call ([pre]) or between
+                                   the commit of the wrapped store and the dispatch *)
 | SStart (cid from : Z)
 | SAck (k : Z) (ok : bool)
 | SRegister (k : Z).
 
+(* callbackStore.Put: the wrapped store commits the beacon, then it is handed to every registered
+   callback. The dispatch does not look at the context: a beacon that is in the store has been
+   handed to every callback registered at that time. *)
+Definition put_step (bk : backend) (st : sst) (d : Z) : sst :=
+  let b := (Z.of_nat (length (store st)), d) in
+  mkSS (store st ++ [b]) (map_idx (on_put bk (reg st) b) 0 (streams st)) (reg st).
+
+Definition is_bolt (bk : backend) : bool := match bk with Bolt => true | Mem => false end.
+
 Definition ss_step (bk : backend) (st : sst) (e : sev) : sst :=
   match e with
-  | SPut d =>
-      let b := (Z.of_nat (length (store st)), d) in
-      mkSS (store st ++ [b]) (map_idx (on_put bk (reg st) b) 0 (streams st)) (reg st)
+  | SPut d => put_step bk st d
+  | SPutCtx d pre =>
+      (* a context that is already done makes bolt's Put return ctx.Err() without writing (and the
+         callback store then returns before the dispatch); memdb's Put ignores the context. A context
+         that becomes done after the commit changes nothing. *)
+      if pre && is_bolt bk then st else put_step bk st d
   | SStart cid from =>
       let n := length (store st) in
       let news :=
